@@ -28,7 +28,7 @@ manifest = {
         "kind_free_text": "Hypothesis-driven generated-input search (collect -> bucket -> shrink -> replay) with an RDKit-based independent chemistry oracle, exhaustive enumeration of small finite sub-domains, sharded over 16 processes",
     }],
     "checks": [],
-    "notes": "Entry point ./check <ID> [--tier quick|thorough] [--replay file]; VERIF_SEED/VERIF_TIER honoured; exit 2 = harness error. Genuine defects repaired in /repo as 'fix:' commits and findings kept are listed in known_findings.json (see DESIGN.md section 6).",
+    "notes": "Entry point ./check <ID> [--tier quick|thorough] [--replay file]; VERIF_SEED/VERIF_TIER honoured; exit 2 = harness error. Genuine defects repaired in /repo as 'fix:' commits and findings kept are listed in known_findings.json (see DESIGN.md sections 6 and 8.2-8.3; seeded changes and which check catches them: 8.6-8.10).",
     "not_applicable": [],
 }
 for i in ids:
